@@ -494,6 +494,28 @@ fn c10_batches(tier: &str) -> Vec<Batch> {
     vec![Batch { name: "c10-main".into(), profile: p, runs: scale(tier, 20_000, 400_000), exec: exec_c10, strata: None }]
 }
 
+fn exec_c13(p: &Profile, cfg: &RunCfg) -> (RunOut, MonOut) {
+    let (out, _w, _s) = run_sm(p, cfg);
+    let mon = c13::monitor(&out);
+    (out, mon)
+}
+
+fn c13_batches(tier: &str) -> Vec<Batch> {
+    let mut p = c11_profile();
+    p.name = "c13-sm".into();
+    p.lazy_consumer_permille = 400;
+    p.spurious_poll_permille = 150;
+    p.latency = [5, 3, 2];
+    p.installer.max_progress = 6;
+    p.srv.app_outcome = [25, 65, 4, 3, 3];
+    p.drop_stream_permille = 0;
+    p.drop_handles_permille = 50;
+    vec![
+        Batch { name: "c13-generator".into(), profile: Profile::base("c13-generator"), runs: scale(tier, 60_000, 2_000_000), exec: crate::gen::run_gen, strata: None },
+        Batch { name: "c13-sm".into(), profile: p, runs: scale(tier, 12_000, 300_000), exec: exec_c13, strata: None },
+    ]
+}
+
 fn c01_batches(tier: &str) -> Vec<Batch> {
     vec![Batch { name: "c01-main".into(), profile: Profile::base("c01"), runs: scale(tier, 20_000, 600_000), exec: crate::cup::run_cup, strata: None }]
 }
@@ -713,6 +735,7 @@ pub fn all() -> Vec<PropDef> {
         def("C05", "policy answer sequences (5 check decisions with varying request parameters, 3 install decisions, reboot needed/allowed) interleaved with timers and control requests, including invalid app sets; a case is one request / decision; distinct = parameter vectors and decision kinds", vec!["pings during a reboot wait are scheduled background contacts with fixed parameters (not covered by the parameter rule)"], c05_batches),
         def("C06", "per-attempt outcome sequences (stratified over the adversary alphabet^3 for the first check) with poll-interval interplay; entropy differential re-runs for jitter; a case is one completed check; distinct = attempt-outcome sequence x initial poll state", vec!["X-Retry-After reading per statement; '+N' either way"], c06_batches),
         def("C07", "header-value classes x status x request kind with probe restarts after every commit and real crashes; a case is one processed response; distinct = (old value, new value, status, request kind)", vec!["'+N' and duplicate headers: any listed reading accepted", "commit is atomic; reads see uncommitted writes"], c07_batches),
+        def("C13", "(a) random generator programs over {yield, yield-all(k), self-wake, await external operation, drop the yield handle, return R} under random consumer schedules {poll when woken, dawdle, spurious poll} through generate / into_yielded / into_complete / into_try_stream; (b) the state machine under lazy consumers, spurious polls and late completions: emission precedes the code after it, progress values in order before the outcome, no halt with nothing pending; distinct = (program shape, adaptor, consumer kind)", vec!["into_complete discards items inside the adaptor, so item receipt is not observable there", "a halt is judged only when neither the stream was dropped nor ended"], c13_batches),
         def("C14", "hostile inputs combined with the flow: arbitrary/garbage/bit-flipped/truncated response bytes, statuses, header values, hostile initial storage (wrong types, negatives, i64/u32 extremes for every key), malformed service URLs, wall-clock jumps (backwards, pre-epoch, sub-microsecond, far future), metrics-sink errors, crashes, with a formatting tracing subscriber installed; plus differential re-runs (same seed, storage failures live vs off) comparing requests sent and events announced; a case is one run; distinct = set of fault kinds that fired", vec!["policy and installer answers conform to their contracts", "panic attribution: the executor marks when library code is running; a panic raised inside a dependency while the mark is set counts", "differential rule is evaluated within one lifetime (what is stored legitimately differs afterwards)"], c14_batches),
         def("C15", "in situ: every request sent by whole-flow runs (update checks, retries, event reports, pings; 1-4 apps with presets, fingerprints, extra fields; varying request parameters; on-demand requests) is decoded at the simulated server and compared with an independently written encoder applied to the model state; distinct = (request kind, app count, parameters). Builder call sequences the state machine never issues (same id added twice with different cohorts) are out of reach and not claimed.", vec!["app state is taken from the arguments the policy engine received (their correctness is C09's subject)", "version strings are rebuilt from the configured components, not from the library's Display"], c15_batches),
         def("C16", "in situ, CUP off: documents from the independent v3 response-grammar generator (apps in any order, unknown ids, all statuses, cohort fields absent vs empty, daystart forms, urls x packages, sizes up to 2^64-1, extension attributes, optional anti-XSSI prefix), byzantine documents (required field removed / wrongly typed), and garbage, truncated, bit-flipped and deeply nested bodies reach the parser through the state machine; the announced decode is compared with the document (or with an independent reading of the bytes); distinct = (tamper kind, grammaticality, announced)", vec!["serde_json::Value as the independent reading of arbitrary bytes", "only unarguably required fields are removed by the byzantine mutations"], c16_batches),
